@@ -132,6 +132,9 @@ type Engine struct {
 	funcs         map[string]bool
 	maxAlloc      int
 	kv            map[string]Value // per-path scratch store (variable stub etc.)
+	sleepPark     bool             // time.Sleep parks non-main goroutines until WakeSleepers
+	sleepGen      int
+	sleepers      int
 	mutexes       map[*Value]int
 	sched         *scheduler
 	timers        []*timerRec
@@ -189,6 +192,7 @@ func (e *Engine) resetPath(prefix []int64) {
 	e.maxAlloc = 0
 	e.kv = map[string]Value{}
 	e.pools = nil
+	e.sleepPark, e.sleepGen, e.sleepers = false, 0, 0
 	e.finishBudget, e.finishMsg = 0, ""
 	e.mutexes = map[*Value]int{}
 	e.sched = nil
